@@ -119,12 +119,30 @@ class FnModel:
         self.inline_helpers = {}   # name -> function record: same-class helpers with a single return, inlined into origins (set by the caller)
 
     # ------------------------------------------------------------------ origins
+    def _mod_sites(self):
+        if getattr(self, "_mods", None) is None:
+            self._mods = {}
+            for x in walk(self.body):
+                k = x.get("k")
+                if (k in ("BinaryOperator", "CompoundAssignOperator") and x.get("op") in ("=", "+=", "-=")) or (k == "UnaryOperator" and x.get("op") in ("++", "--")):
+                    lhs = strip(kids(x)[0])
+                    if lhs.get("k") == "DeclRefExpr":
+                        self._mods.setdefault(lhs["did"], []).append(x)
+        return self._mods
+
+    def _loops(self):
+        if getattr(self, "_loopnodes", None) is None:
+            self._loopnodes = [x for x in walk(self.body) if x.get("k") in ("ForStmt", "WhileStmt", "DoStmt", "CXXForRangeStmt") and x.get("b") is not None and x.get("e") is not None]
+        return self._loopnodes
+
     def origin(self, n, depth=0):
         if depth > 40:
             raise AnalysisBroken("origin recursion too deep at " + self.facts.loc(n))
         n = strip(n)
         if n is None:
             return "?"
+        if depth == 0:
+            self._use_b = getattr(self, "_use_pin", None) or n.get("b")      # where the value is used: bindings met while expanding it are judged against this point
         k = n.get("k")
         f = self.facts
         if k in ("CXXStaticCastExpr", "CStyleCastExpr", "CXXFunctionalCastExpr", "CXXConstCastExpr", "CXXReinterpretCastExpr"):
@@ -171,7 +189,27 @@ class FnModel:
             init = kids(d)
             if not init:
                 return "local:" + n["name"]
-            return self.origin(init[0], depth + 1)
+            o_ = self.origin(init[0], depth + 1)
+            ub = getattr(self, "_use_b", None) or n.get("b")
+            if "mutable:" in o_ and ub is not None and d.get("e") is not None:
+                # a const local / reference bound to an expression over a variable that is modified between the binding and this use
+                # (textually in between, or inside a loop that encloses the use but not the binding) names the OLD value: `r = A[i]`
+                # followed by `for(; i < e; ++i) f(r, A[i])` hands f two different elements although both read `A[i]`
+                for y in walk(init[0]):
+                    if y.get("k") == "DeclRefExpr" and self.assigned.get(y.get("did")):
+                        stale = False
+                        for m_ in self._mod_sites().get(y["did"], []):
+                            if m_.get("b") is None:
+                                continue
+                            if d["e"] < m_["b"] < ub:
+                                stale = True
+                            for L_ in self._loops():
+                                if L_["b"] <= m_["b"] <= L_["e"] and L_["b"] <= ub <= L_["e"] and not (L_["b"] <= d["b"] <= L_["e"]):
+                                    stale = True
+                        if stale:
+                            # (`@old`: the value at an earlier binding; no line number, sibling functions are compared by these texts)
+                            o_ = re.sub(r"mutable:%s(?![\w@])" % re.escape(y["name"]), "mutable:%s@old" % y["name"], o_)
+            return o_
         if k == "MemberExpr":
             base = kids(n)
             if n.get("implicitthis") or (base and strip(base[0]).get("k") == "CXXThisExpr"):
